@@ -219,7 +219,7 @@ func (d *driver) dhcpFrame(mac string) []byte {
 }
 
 // untracked frames: every class the statement of C04 says must not create a host.
-var untrackedKinds = []string{"vlan-ip4", "unspec-ip6-src", "loopback-ip6-src", "own-src-arp-forged", "own-src-ip4", "own-src-ip6", "own-src-arp", "mcast-src", "bcast-src", "offlan-ip4", "zero-ip4",
+var untrackedKinds = []string{"wfail", "vlan-ip4", "unspec-ip6-src", "loopback-ip6-src", "own-src-arp-forged", "own-src-ip4", "own-src-ip6", "own-src-arp", "mcast-src", "bcast-src", "offlan-ip4", "zero-ip4",
 	"router-gua", "8023", "unknown-ethertype", "bad-ip4", "short", "mcast-ip6-src", "lldp", "arp-offlan", "arp-zero"}
 
 func (d *driver) untrackedFrame(kind string) []byte {
@@ -278,8 +278,18 @@ func (d *driver) untrackedFrame(kind string) []byte {
 	panic("unknown untracked kind " + kind)
 }
 
-func (d *driver) updateName(h *packet.Host, slot, name string) {
-	n := packet.NameEntry{Type: slot, Name: vh.NameValue(name)}
+// nameEntry builds the NameEntry of a step; "exp" (hours, 0 = none) is the expiry a name source attaches
+// to its announcement: it is not part of what C04-C06 talk about (a notification reports a CHANGED name).
+func (d *driver) nameEntry(typ, name string, a action) packet.NameEntry {
+	n := packet.NameEntry{Type: typ, Name: vh.NameValue(name)}
+	if e := a.i("exp"); e > 0 {
+		n.Expire = vh.VTime(d.vnow).Add(time.Duration(e) * time.Hour)
+	}
+	return n
+}
+
+func (d *driver) updateName(h *packet.Host, slot, name string, a action) {
+	n := d.nameEntry(slot, name, a)
 	switch slot {
 	case "dhcp":
 		h.UpdateDHCP4Name(n)
@@ -342,12 +352,19 @@ func (d *driver) step(a action) (rec map[string]interface{}) {
 		d.last, d.hasFr = fr, err == nil
 		if a.s("a")[0] == 'f' && err == nil {
 			if nm := a.s("name"); nm != "" && nm != "noname" && fr.Host != nil {
-				d.updateName(fr.Host, a.s("slot"), nm)
+				d.updateName(fr.Host, a.s("slot"), nm, a)
 			}
 			d.s.Notify(fr)
 			d.hasFr = false
 		}
 	case "untracked":
+		if a.s("kind") == "wfail" {
+			// not a frame: the network device refuses the next writes (probes are best effort; what the
+			// session tracks and reports is a function of what it received and of the clock only)
+			d.conn.SetFail(1 + d.rng.Intn(4))
+			d.hasFr = false
+			break
+		}
 		fr, err := d.deliver(d.untrackedFrame(a.s("kind")))
 		if err != nil {
 			perr = err.Error()
@@ -373,7 +390,7 @@ func (d *driver) step(a action) (rec map[string]interface{}) {
 		if err != nil {
 			perr = err.Error()
 		} else {
-			if e := d.s.DHCPv4Update(u.MAC(a.s("mac")), u.IP(a.s("ip")), packet.NameEntry{Type: "dhcp", Name: vh.NameValue(a.s("name"))}); e != nil {
+			if e := d.s.DHCPv4Update(u.MAC(a.s("mac")), u.IP(a.s("ip")), d.nameEntry("dhcp", a.s("name"), a)); e != nil {
 				perr = e.Error()
 			}
 			d.s.Notify(fr)
@@ -385,11 +402,11 @@ func (d *driver) step(a action) (rec map[string]interface{}) {
 		}
 		d.hasFr = false
 	case "dhcpupd":
-		if e := d.s.DHCPv4Update(u.MAC(a.s("mac")), u.IP(a.s("ip")), packet.NameEntry{Type: "dhcp", Name: vh.NameValue(a.s("name"))}); e != nil {
+		if e := d.s.DHCPv4Update(u.MAC(a.s("mac")), u.IP(a.s("ip")), d.nameEntry("dhcp", a.s("name"), a)); e != nil {
 			perr = e.Error()
 		}
 	case "offer":
-		d.s.SetDHCPv4IPOffer(u.MAC(a.s("mac")), u.IP(a.s("ip")), packet.NameEntry{Type: "dhcp", Name: vh.NameValue(a.s("name"))})
+		d.s.SetDHCPv4IPOffer(u.MAC(a.s("mac")), u.IP(a.s("ip")), d.nameEntry("dhcp", a.s("name"), a))
 	case "capture":
 		if e := d.s.Capture(u.MAC(a.s("mac"))); e != nil {
 			perr = e.Error()
@@ -400,7 +417,7 @@ func (d *driver) step(a action) (rec map[string]interface{}) {
 		}
 	case "name":
 		if h := d.s.FindIP(u.IP(a.s("ip"))); h != nil {
-			d.updateName(h, a.s("slot"), a.s("name"))
+			d.updateName(h, a.s("slot"), a.s("name"), a)
 		} else {
 			rec["nohost"] = 1
 		}
